@@ -83,6 +83,52 @@ func reservedPrefixes(repo string) []string {
 	return out
 }
 
+// sourceNames: identifiers the implementation itself spells out in string literals -- map keys, placeholder and helper-label
+// names, template fields -- read from the non-test Go files of the tree.  A literal with a verb (`"tmp_%d"`) yields the names the
+// format would produce for small arguments.  They are ordinary identifiers to an assembler user.
+func sourceNames(repo string, reserved []string) (fromFormats, plain []string) {
+	lit := regexp.MustCompile("\"([^\"\\\\\n]{1,40})\"")
+	ident := regexp.MustCompile(`^[A-Za-z_][A-Za-z0-9_]{0,39}$`)
+	seenF := map[string]bool{}
+	seenP := seenF // one set: a name is listed once
+	for _, dir := range []string{"internal", "pkg", "cmd"} {
+		filepath.Walk(filepath.Join(repo, dir), func(path string, info os.FileInfo, err error) error {
+			if err != nil || info.IsDir() || !strings.HasSuffix(path, ".go") || strings.HasSuffix(path, "_test.go") || info.Size() > 400000 {
+				return nil
+			}
+			b, err := os.ReadFile(path)
+			if err != nil {
+				return nil
+			}
+			for _, m := range lit.FindAllStringSubmatch(string(b), -1) {
+				t := strings.TrimSuffix(strings.TrimPrefix(strings.TrimSpace(m[1]), "{{."), "}}")
+				if strings.Contains(t, "%") {
+					for _, arg := range []string{"0", "1", "2", "x"} {
+						u := t
+						for _, v := range []string{"%d", "%v", "%s", "%x", "%03d", "%02d", "%04d"} {
+							u = strings.ReplaceAll(u, v, arg)
+						}
+						u = strings.TrimSuffix(strings.TrimPrefix(u, "{{."), "}}")
+						if ident.MatchString(u) && !hasReservedPrefix(u, reserved) && !seenF[u] {
+							seenF[u] = true
+							fromFormats = append(fromFormats, u)
+						}
+					}
+					continue
+				}
+				if ident.MatchString(t) && !hasReservedPrefix(t, reserved) && !seenP[t] {
+					seenP[t] = true
+					plain = append(plain, t)
+				}
+			}
+			return nil
+		})
+	}
+	sort.Strings(fromFormats)
+	sort.Strings(plain)
+	return
+}
+
 func hasReservedPrefix(name string, reserved []string) bool {
 	for _, w := range reserved {
 		if strings.HasPrefix(name, w) {
